@@ -1,7 +1,7 @@
 (** C05 — Indicator raw values equal the documented formulas (theorems added per indicator). *)
 From Yata Require Import Base.Prelude Base.Num Base.NumR Core.Window Core.Candle Core.Action
-  Spec.Hist Spec.MethodDefs Spec.IndicatorDefs Methods.Basic Methods.Select Indicators.Common Indicators.Set1 Indicators.Set2 Indicators.Set3
-  Proofs.IndicatorProofs Proofs.IndicatorProofs2 Proofs.IndicatorProofs3 Proofs.IndicatorProofs4 Proofs.IndicatorProofs5 Proofs.IndicatorProofs6 Proofs.IndicatorProofs7 Proofs.IndicatorProofs8 Proofs.MAProofs.
+  Spec.Hist Spec.MethodDefs Spec.IndicatorDefs Methods.Basic Methods.Select Indicators.Common Indicators.Set1 Indicators.Set2 Indicators.Set3 Indicators.Set4 Indicators.Set5
+  Proofs.IndicatorProofs Proofs.IndicatorProofs2 Proofs.IndicatorProofs3 Proofs.IndicatorProofs4 Proofs.IndicatorProofs5 Proofs.IndicatorProofs6 Proofs.IndicatorProofs7 Proofs.IndicatorProofs8 Proofs.IndicatorProofs9 Proofs.IndicatorProofs10 Proofs.Windowed5 Proofs.MAProofs.
 From Coq Require Import Reals.
 Open Scope Z_scope.
 
@@ -15,7 +15,7 @@ Theorem C05_momentum_index p1 p2 src (c0 : C) cs c : 1 <= p2 -> p2 < p1 <= pmax 
     fst (snd (momi_next (steps momi_next s0 cs) c)) = momi_values p1 p2 src c0 (rev (cs ++ [c])).
 Proof. exact (momi_values_correct p1 p2 src c0 cs c). Qed.
 
-(** the MA constructor: 13 of its 15 kinds (all but SMM, Vidya) return the kind's definition at every step *)
+(** the MA constructor: all 15 kinds return the kind's definition at every step *)
 Theorem C05_ma_constructor (c : ma_cfg) (v : @F NumR) xs x : ma_proved c = true -> ma_len_ok c ->
   exists s0, ma_init c v = Ok s0 /\ snd (ma_next (steps ma_next s0 xs) x) = ma_def c v (rev (xs ++ [x])).
 Proof. exact (ma_correct c v xs x). Qed.
@@ -105,4 +105,44 @@ Theorem C05_elders_force_index (ma : ma_cfg) p2 src (c0 : C) cs c :
   exists s0, efi_init ma p2 src c0 = Ok s0 /\
     fst (snd (efi_next (steps efi_next s0 cs) c)) = efi_values ma p2 src c0 (rev (cs ++ [c])).
 Proof. exact (efi_values_correct ma p2 src c0 cs c). Qed.
+Theorem C05_klinger_volume_oscillator (ma1 ma2 signal : ma_cfg) (c0 : C) cs c :
+  ma_similar ma1 ma2 = true -> 1 < ma_period ma1 < ma_period ma2 -> 1 < ma_period signal ->
+  ma_proved ma1 = true -> ma_len_ok ma1 -> ma_proved ma2 = true -> ma_len_ok ma2 -> ma_proved signal = true -> ma_len_ok signal ->
+  exists s0, kvo_init ma1 ma2 signal c0 = Ok s0 /\
+    fst (snd (kvo_next (steps kvo_next s0 cs) c)) = kvo_values ma1 ma2 signal c0 (rev (cs ++ [c])).
+Proof. exact (kvo_values_correct ma1 ma2 signal c0 cs c). Qed.
+(** ChaikinOscillator: windowed (window >= 1) and cumulative (window = 0) accumulation/distribution line *)
+Theorem C05_chaikin_oscillator (ma1 ma2 : ma_cfg) window (c0 : C) cs c :
+  ma_similar ma1 ma2 = true -> 0 < ma_period ma1 < ma_period ma2 -> ma_period ma2 < pmax -> 0 <= window <= pmax - 1 -> 2 <= pmax ->
+  ma_proved ma1 = true -> ma_len_ok ma1 -> ma_proved ma2 = true -> ma_len_ok ma2 ->
+  exists s0, co_init ma1 ma2 window c0 = Ok s0 /\
+    fst (snd (co_next (steps co_next s0 cs) c)) = co_values ma1 ma2 window c0 (rev (cs ++ [c])).
+Proof. exact (chaikin_oscillator_values_correct ma1 ma2 window c0 cs c). Qed.
+Theorem C05_coppock_curve (cfg : cop_cfg) (c0 : C) cs c : cop_validate cfg = true -> cc_left cfg + cc_right cfg <= pmax - 2 ->
+  ma_proved (cc_ma1 cfg) = true -> ma_len_ok (cc_ma1 cfg) -> ma_proved (cc_s3 cfg) = true -> ma_len_ok (cc_s3 cfg) ->
+  exists s0, cop_init (N := NumR) cfg c0 = Ok s0 /\
+    fst (snd (cop_next (steps cop_next s0 cs) c)) =
+    cop_values (cc_ma1 cfg) (cc_s3 cfg) (cc_p2 cfg) (cc_p3 cfg) (cc_source cfg) c0 (rev (cs ++ [c])).
+Proof. exact (coppock_values_correct cfg c0 cs c). Qed.
+Theorem C05_know_sure_thing (cfg : kst_cfg) (c0 : C) cs c : kst_validate cfg = true ->
+  1 <= kc_p1 cfg -> kc_p4 cfg <= pmax - 1 ->
+  ma_proved (kc_ma1 cfg) = true -> ma_len_ok (kc_ma1 cfg) -> ma_proved (kc_ma2 cfg) = true -> ma_len_ok (kc_ma2 cfg) ->
+  ma_proved (kc_ma3 cfg) = true -> ma_len_ok (kc_ma3 cfg) -> ma_proved (kc_ma4 cfg) = true -> ma_len_ok (kc_ma4 cfg) ->
+  ma_proved (kc_signal cfg) = true -> ma_len_ok (kc_signal cfg) ->
+  exists s0, kst_init (N := NumR) cfg c0 = Ok s0 /\
+    fst (snd (kst_next (steps kst_next s0 cs) c)) =
+    kst_values (kc_p1 cfg) (kc_p2 cfg) (kc_p3 cfg) (kc_p4 cfg) (kc_ma1 cfg) (kc_ma2 cfg) (kc_ma3 cfg) (kc_ma4 cfg) (kc_signal cfg) c0 (rev (cs ++ [c])).
+Proof. exact (kst_values_correct cfg c0 cs c). Qed.
+Theorem C05_ichimoku_cloud l1 l2 l3 m src (c0 : C) cs c :
+  1 <= l1 -> l1 < l2 -> l2 < l3 -> l3 <= pmax - 1 -> 1 <= m <= pmax - 1 ->
+  exists s0, ichi_init l1 l2 l3 m src c0 = Ok s0 /\
+    fst (snd (ichi_next (steps ichi_next s0 cs) c)) = ichi_values l1 l2 l3 m c0 (rev (cs ++ [c])).
+Proof. exact (ichimoku_values_correct l1 l2 l3 m src c0 cs c). Qed.
+Theorem C05_hull_moving_average period lft right src (c0 : C) cs c :
+  2 < period <= pmax - 1 -> 1 <= lft -> 1 <= right -> lft + right <= pmax - 2 ->
+  exists s0, hmai_init period lft right src c0 = Ok s0 /\
+    fst (snd (hmai_next (steps hmai_next s0 cs) c)) =
+    [hma_def (Z.to_nat period) (Z.to_nat (period / 2)) (Z.to_nat (hma_len3 period))
+       (hget (c_source c0 src) (srcs src (rev (cs ++ [c]))))].
+Proof. exact (hull_indicator_values_correct period lft right src c0 cs c). Qed.
 End C05.
